@@ -361,7 +361,36 @@ class Driver(BaseComponent):
             w.drive(event)
         finally:
             # contract of generate_events: a handler that did something must make sure nobody sleeps
-            event.reduce_time_left(0)
+            if not w.lazy:
+                event.reduce_time_left(0)
+
+
+class IdleEvent:
+    """Double for threading.Event as used by the fall-back idle wait, for single-threaded worlds: nobody else exists who could
+    set it, so a wait returns at once (virtual time passes) and is reported to the world; a practically unbounded wait
+    (no time-out, or the 10000 s of the fall-back's untimed loop) can only be ended by another thread: the world records it and,
+    the verdict being settled, releases the loop so that the execution terminates."""
+    world = None
+
+    def __init__(self):
+        self._flag = False
+
+    def set(self):
+        self._flag = True
+
+    def clear(self):
+        self._flag = False
+
+    def is_set(self):
+        return self._flag
+
+    def wait(self, timeout=None):
+        if self._flag:
+            return True
+        w = IdleEvent.world
+        if w is not None:
+            w.on_idle_wait(timeout)
+        return self._flag
 
 
 class RunWorld(World):
@@ -384,6 +413,26 @@ class RunWorld(World):
         self.capped = False
         self.stopped_by_driver = False
         self.auto_stop = True
+        self.idle_waits = []      # (log index, timeout) of every idle wait seen by the IdleEvent double
+
+    lazy = False      # True: the driver does not ask for zero idle time - the loop idles exactly as the library decides
+
+    def use_idle_double(self):
+        import circuits.core.helpers as helpers_mod
+        helpers_mod.Event = IdleEvent
+        IdleEvent.world = self
+
+    def on_idle_wait(self, timeout):
+        self.idle_waits.append((len(self.log), timeout))
+        self.log.append(('idle-wait', timeout))
+        if timeout is None or timeout >= 1000:
+            ev = getattr(self.root, '_currently_handling', None)
+            if ev is not None and hasattr(ev, 'reduce_time_left'):
+                ev.reduce_time_left(0)       # release (harness only, after the unbounded wait has been recorded)
+            if getattr(self.root, '_running', False):
+                self.log.append(('driver-stop',))
+                self.stopped_by_driver = True
+                self.root.stop()
 
     def drive(self, event):
         self.log.append(('iter', self.iterations))
